@@ -32,8 +32,8 @@ type Config struct {
 	NumVersionsToKeep   int      `json:"versions_to_keep"`
 	DetectConflicts     bool     `json:"detect_conflicts"`
 	SyncWrites          bool     `json:"sync_writes"`
-	Compression         int      `json:"compression"` // 0 none 1 snappy 2 zstd
-	EncKeyLen           int      `json:"enc_key_len"` // 0,16,24,32
+	Compression         int      `json:"compression"`                 // 0 none 1 snappy 2 zstd
+	EncKeyLen           int      `json:"enc_key_len"`                 // 0,16,24,32
 	EncRotS             int      `json:"enc_rot_s,omitempty"`         // data-key rotation interval in seconds (0 = badger's default, 10 days)
 	EncRotateMaster     bool     `json:"enc_rotate_master,omitempty"` // C23: rotate the master key before the last re-open
 	EncKeyVariant       byte     `json:"enc_key_variant,omitempty"`   // which master key the options carry (set by the harness after a rotation)
@@ -61,10 +61,10 @@ type Config struct {
 	PrefillAllKeys      bool     `json:"prefill_all_keys,omitempty"`
 	PrefillVlog         bool     `json:"prefill_vlog,omitempty"`
 	PrefillClustered    bool     `json:"prefill_clustered,omitempty"`
-	PrefillSkew         bool     `json:"prefill_skew,omitempty"` // uneven version counts per key
-	PrefillTTL          int      `json:"prefill_ttl,omitempty"` // every third pre-fill write expires this many seconds after it was written
+	PrefillSkew         bool     `json:"prefill_skew,omitempty"`  // uneven version counts per key
+	PrefillTTL          int      `json:"prefill_ttl,omitempty"`   // every third pre-fill write expires this many seconds after it was written
 	PrefillAgeS         int      `json:"prefill_age_s,omitempty"` // simulated seconds that pass between pre-fill and the explored part (table ages)
-	Prefill             int      `json:"prefill"` // percent of MemTableSize written (through the model) before scheduling starts
+	Prefill             int      `json:"prefill"`                 // percent of MemTableSize written (through the model) before scheduling starts
 }
 
 // Op is one client operation.
@@ -86,18 +86,19 @@ type Op struct {
 
 // IterSpec describes one iterator use.
 type IterSpec struct {
-	Rev      bool `json:"rev,omitempty"`
-	Prefix   int  `json:"prefix"`             // key index or -1
-	Seek     int  `json:"seek"`               // key index or -1 (Rewind)
-	SeekSfx  int  `json:"seek_sfx,omitempty"` // 0 none, 1 append 0x00, 2 append 0xff
-	AllV     bool `json:"allv,omitempty"`
-	Since    int  `json:"since,omitempty"` // 0 none; else SinceTs = max(1, readTs - Since + 1)... see exec
-	Prefetch bool `json:"prefetch,omitempty"`
-	PSize    int  `json:"psize,omitempty"`
-	Max      int  `json:"max,omitempty"`  // stop after this many items (0 = all)
-	KeyIter  int  `json:"key_iter"`       // key index for NewKeyIterator or -1
-	Vals     int  `json:"vals,omitempty"` // 0 don't read values, 1 Value, 2 ValueCopy
-	Reseek   int  `json:"reseek"`         // after Max items seek again to this key index (-1 none)
+	Rev       bool `json:"rev,omitempty"`
+	Prefix    int  `json:"prefix"`               // key index or -1
+	PrefixLen int  `json:"prefix_len,omitempty"` // 0 = the whole key is the prefix, else its first n bytes
+	Seek      int  `json:"seek"`                 // key index or -1 (Rewind)
+	SeekSfx   int  `json:"seek_sfx,omitempty"`   // 0 none, 1 append 0x00, 2 append 0xff
+	AllV      bool `json:"allv,omitempty"`
+	Since     int  `json:"since,omitempty"` // 0 none; else SinceTs = max(1, readTs - Since + 1)... see exec
+	Prefetch  bool `json:"prefetch,omitempty"`
+	PSize     int  `json:"psize,omitempty"`
+	Max       int  `json:"max,omitempty"`  // stop after this many items (0 = all)
+	KeyIter   int  `json:"key_iter"`       // key index for NewKeyIterator or -1
+	Vals      int  `json:"vals,omitempty"` // 0 don't read values, 1 Value, 2 ValueCopy
+	Reseek    int  `json:"reseek"`         // after Max items seek again to this key index (-1 none)
 }
 
 // Faults is the fault plan.
